@@ -288,6 +288,7 @@ class ProtoConv:
     def __init__(self, it: Interner):
         self.it = it
         self.unmodelled: list[str] = []
+        self.old = False
         self.ir_version = None        # set by model(): device configurations are part of the tokens from IR 11 on
 
     # leaves
@@ -419,7 +420,7 @@ class ProtoConv:
     def model(self, p) -> str:
         from onnx_ir import serde
         if len(p.functions) and p.ir_version < 10:
-            self.unmodelled.append("function value_info in the IR<10 experimental format")
+            self.old = True       # the IR<10 experimental function value-info format: C03/ModelOld.v (tables: exp_tables)
         self.ir_version = p.ir_version
         if has_nonstr(p):
             self.unmodelled.append("string field holding invalid UTF-8 (bytes)")
@@ -688,8 +689,53 @@ def ir_heap(model, it: Interner, tensor_key_fn=tensor_key) -> tuple[str, str, IR
     return heap, mdl, w
 
 
+def exp_tables(it: Interner, protos=(), models=()) -> tuple[str, str]:
+    """The two string operations of the IR<10 experimental function value-info format as per-case tables over name
+    tokens (C03/ModelOld.v): X (parse: composite-name token -> (function id token with overload "", value name
+    token), through the library's own parser = leaf level) and Y (compose: (function id token, value name token) ->
+    composite-name token, the format "{domain}::{function}/{value}")."""
+    from onnx_ir import serde
+    X, Y = {}, {}
+
+    def parse(name):
+        if not isinstance(name, str):
+            return
+        try:
+            r = serde._parse_experimental_function_value_info_name(name)  # noqa: SLF001
+        except Exception:  # noqa: BLE001
+            r = None
+        if r is not None:
+            d, f, v = r
+            X[it.tok(name)] = (it.tok(("fn", d, f, "")), it.tok(v))
+
+    def compose(domain, fname, overload, vname):
+        if not isinstance(vname, str):
+            return
+        c = f"{domain}::{fname}/{vname}"
+        Y[(it.tok(("fn", domain, fname, overload)), it.tok(vname))] = it.tok(c)
+        parse(c)
+    for p in protos:
+        if p is None:
+            continue
+        for vi in p.graph.value_info:
+            parse(vi.name)
+        for f in p.functions:
+            for k in list(f.input) + [o for n in f.node for o in n.output]:
+                compose(f.domain, f.name, getattr(f, "overload", ""), k)
+    for m in models:
+        if m is None:
+            continue
+        for f in m.functions.values():
+            for v in list(f.inputs) + [o for n in f for o in n.outputs]:
+                if v.name is not None:
+                    compose(f.domain, f.name, f.overload, v.name)
+    xs = clist(f"({a}%N, ({b}%N, {c}%N))" for a, (b, c) in sorted(X.items()))
+    ys = clist(f"({a}%N, {b}%N, {c}%N)" for (a, b), c in sorted(Y.items()))
+    return xs, ys
+
+
 CASE_HEADER = """From Coq Require Import NArith ZArith List Bool.
-From IRV Require Import Base.Exn C03.Model C03.Canon C03.Inv.
+From IRV Require Import Base.Exn C03.Model C03.Canon C03.Inv C03.ModelOld.
 Import ListNotations.
 Open Scope Z_scope.
 """
@@ -3007,6 +3053,11 @@ def run_case(recipe: dict, want_term: bool = True, repair=None) -> dict:
             # the structural model carries device configurations as opaque tokens: it knows neither that the leaf
             # serializer rejects a spec without a named value nor what a dangling configuration reads back as
             res["unmodelled"].append("device configuration outside the hypothesis (dangling / unnamed value)")
+        # quantization annotations are not in the structural model: decide by the IR (not by the proto, which does
+        # not exist when to_proto raises, e.g. for an annotated value without a name)
+        from onnx_ir import serde as _serde
+        if any(v.meta.get(_serde._QUANT_PARAMETER_TENSOR_NAMES_FIELD) for v in IRWalk(model).values):  # noqa: SLF001
+            res["unmodelled"].append("graph.quantization_annotation")
     # ---- (a) + (b): snapshots around two serializations
     s0 = snapshot(model)
     q1 = q2 = None
